@@ -176,6 +176,62 @@ Pow(b, e) == IF e = 0 THEN 1 ELSE b * Pow(b, e - 1)
 \* source position an output element descends from
 RootOf(p, k) == k \div Pow(FAN, NumFlat(p))
 
+
+(***************************************************************************)
+(* "Big" programs: source length p.n larger than the pattern p.input;      *)
+(* position i carries input[i % Len(input)].  Their traces carry digests   *)
+(* of the collected sequence instead of the sequence; the same digests are *)
+(* computed here from the sequential semantics.                            *)
+(***************************************************************************)
+IsBig(p) == "n" \in DOMAIN p /\ p.n > Len(p.input)
+SrcLen(p) == IF IsBig(p) THEN p.n ELSE Len(p.input)
+HM == 46337
+HX(e) == (e.k * 7 + e.v + 1) % HM
+
+RECURSIVE OutOnly(_, _, _)
+OutOnly(st, s, x) ==
+  IF s > Len(st) THEN <<x>>
+  ELSE LET o == st[s]
+       IN  CASE o.k = "map" -> OutOnly(st, s + 1, Elem(x.k, o.t[x.v + 1]))
+             [] o.k = "filter" -> IF o.t[x.v + 1] # 0 THEN OutOnly(st, s + 1, x) ELSE <<>>
+             [] o.k = "fmap" -> IF o.t[x.v + 1] >= 0 THEN OutOnly(st, s + 1, Elem(x.k, o.t[x.v + 1])) ELSE <<>>
+             [] o.k = "flat" -> LET kids == o.tt[x.v + 1]
+                                IN  FlattenSeqs([j \in 1..Len(kids) |->
+                                       OutOnly(st, s + 1, Elem(x.k * FAN + (j - 1), kids[j]))])
+
+RECURSIVE DigestSeq(_, _, _)
+\* acc = [n, hs, hu, sum, mink]
+DigestSeq(out, j, acc) ==
+  IF j > Len(out) THEN acc
+  ELSE DigestSeq(out, j + 1,
+         [n |-> acc.n + 1, hs |-> (acc.hs * 31 + HX(out[j])) % HM,
+          hu |-> (acc.hu + ((HX(out[j]) * HX(out[j])) % HM)) % HM,
+          sum |-> acc.sum + out[j].v,
+          mink |-> IF acc.mink < 0 \/ out[j].k < acc.mink THEN out[j].k ELSE acc.mink])
+
+\* digests combine associatively, so the fold over 10^5 positions is done by halving (depth ~17)
+RECURSIVE PowMod(_, _)
+PowMod(b, e) == IF e = 0 THEN 1
+                ELSE LET h == PowMod(b, e \div 2)
+                     IN  IF e % 2 = 0 THEN (h * h) % HM ELSE (((h * h) % HM) * b) % HM
+EmptyDigest == [n |-> 0, hs |-> 0, hu |-> 0, sum |-> 0, mink |-> -1]
+JoinDigest(a, b) ==
+  [n |-> a.n + b.n,
+   hs |-> (((a.hs * PowMod(31, b.n)) % HM) + b.hs) % HM,
+   hu |-> (a.hu + b.hu) % HM,
+   sum |-> a.sum + b.sum,
+   mink |-> IF a.mink < 0 THEN b.mink ELSE IF b.mink < 0 THEN a.mink ELSE IF a.mink <= b.mink THEN a.mink ELSE b.mink]
+
+RECURSIVE RangeDigest(_, _, _, _)
+\* digest of the outputs of source positions lo .. hi-1
+RangeDigest(p, st, lo, hi) ==
+  IF hi <= lo THEN EmptyDigest
+  ELSE IF hi - lo = 1
+       THEN DigestSeq(OutOnly(st, 1, Elem(lo, p.input[(lo % Len(p.input)) + 1])), 1, EmptyDigest)
+       ELSE LET mid == lo + ((hi - lo) \div 2)
+            IN  JoinDigest(RangeDigest(p, st, lo, mid), RangeDigest(p, st, mid, hi))
+BigDigest(p) == RangeDigest(p, Stages(p), 0, SrcLen(p))
+
 (***************************************************************************)
 (* The transformation table of the builder: type x transformation ->       *)
 (* <<type, eager>>.  `eager` marks the sites where the pinned tree          *)
